@@ -144,6 +144,11 @@ pub fn drain(w: &mut World, bank: &Bank, p: usize, acc: &mut Acc) -> Vec<(String
     }
     for i in idx {
         let Some(pos) = bank.data(&w.positions[i].position).and_then(codec::Position::decode) else { continue };
+        // a bundled position address can be closed and opened again on another pool: stale entries of the workload's
+        // list (same address, other pool or other bundle slot already closed) are not this pool's positions
+        if pos.whirlpool != pool_key || w.positions[i].closed {
+            continue;
+        }
         // the bank is the truth: this runs before the workload's own bookkeeping has seen the instruction just executed
         // (a reposition changes the range, a lock freezes the position token account: state byte 108 == 2)
         w.positions[i].lower = pos.tick_lower_index;
